@@ -325,7 +325,60 @@ pub fn generate_table(seed: u64, blob: bool) -> History {
 /// Leveled-compaction heavy histories: a populated last level (several tables), then a few
 /// narrow and wide L0 runs with overwrites and deletes of keys living below, then a leveled
 /// compaction and reads of every key; repeated.
+/// Sequential-insert workload under leveled compaction: every flush covers a fresh, disjoint
+/// key range (trivial moves, multi-table levels, partial compactions that leave older tables
+/// above newer ones), with occasional overwrites/deletes of old keys.
+pub fn generate_seq_lvl(seed: u64, blob: bool) -> History {
+    let mut rng = Rng::new(seed ^ 0x5E0_1E7E);
+    let cfg = rand_cfg(&mut rng, blob);
+    let mut ops = Vec::new();
+    let mut vn = 0u64;
+    let mut next = 0u64;
+    let mut all: Vec<Vec<u8>> = Vec::new();
+    let rounds = rng.range(4, 12);
+    let target = *rng.pick(&[1u64, 1, 100, 300, 1200]);
+    let l0 = *rng.pick(&[1u8, 1, 2, 4]);
+    for _ in 0..rounds {
+        let n = rng.range(1, 6);
+        for _ in 0..n {
+            let k = format!("s{next:05}").into_bytes();
+            next += 1;
+            all.push(k.clone());
+            ops.push(Op::Put(k, rand_value(&mut rng, &mut vn, true)));
+        }
+        if rng.chance(1, 2) && !all.is_empty() {
+            let k = rng.pick(&all).clone();
+            if rng.chance(1, 2) {
+                ops.push(Op::Del(k));
+            } else {
+                ops.push(Op::Put(k, rand_value(&mut rng, &mut vn, false)));
+            }
+        }
+        ops.push(Op::FlushActive(rand_wm(&mut rng)));
+        if rng.chance(3, 4) {
+            // often several compaction rounds in a row, as a background worker would do
+            for _ in 0..rng.range(1, 3) {
+                ops.push(Op::Leveled { l0, target, w: rand_wm(&mut rng) });
+            }
+        }
+        if rng.chance(1, 6) {
+            ops.push(Op::Reopen);
+        }
+        if rng.chance(1, 3) && !all.is_empty() {
+            ops.push(Op::Get(rng.pick(&all).clone(), None));
+        }
+    }
+    for k in &all {
+        ops.push(Op::Get(k.clone(), None));
+    }
+    ops.push(Op::Range(Bnd::Unb, Bnd::Unb, "F".repeat(all.len() + 2), None));
+    History { cfg, ops }
+}
+
 pub fn generate_lvl(seed: u64, blob: bool) -> History {
+    if seed % 3 == 0 {
+        return generate_seq_lvl(seed, blob);
+    }
     let mut rng = Rng::new(seed ^ 0x1E7E_1ED0);
     let cfg = rand_cfg(&mut rng, blob);
     let mut keys = key_universe(&mut rng);
@@ -457,7 +510,12 @@ pub fn generate(profile: &str, seed: u64, n_ops: usize, blob: bool) -> History {
                     }
                     "fifo" => {
                         st.mono += 1;
-                        let k = format!("t{:06}", st.mono).into_bytes();
+                        // monotonic in either direction, fixed per history
+                        let k = if seed % 2 == 0 {
+                            format!("t{:06}", st.mono).into_bytes()
+                        } else {
+                            format!("t{:06}", 999_999 - st.mono).into_bytes()
+                        };
                         let v = rand_value(&mut rng, &mut st.vn, true);
                         ops.push(Op::Put(k, v));
                     }
